@@ -37,6 +37,23 @@ func init() {
 	impls["tlog.checktree"] = func(a []string) string {
 		return tlogErr(tlog.CheckTree(tlogHashes(a[0]), tlogI64(a[1]), tlogHash(a[2]), tlogI64(a[3]), tlogHash(a[4])))
 	}
+	// the independent specification (lean/ModVerif/Spec/RFC6962.lean) against this harness's own RFC code
+	// (spec*) and against the real checkers' acceptance (specacc*)
+	impls["tlog.specpath"] = func(a []string) string { return tlogHashesHex(rfcPath(atoi(a[0]), tlogRecords(a[1]))) }
+	impls["tlog.specproof"] = func(a []string) string { return tlogHashesHex(rfcProof(atoi(a[0]), tlogRecords(a[1]))) }
+	c03Tup := func(a []string) c03Tuple {
+		return c03Tuple{p: tlogHashes(a[0]), t: tlogI64(a[1]), th: tlogHash(a[2]), n: tlogI64(a[3]), h: tlogHash(a[4])}
+	}
+	impls["tlog.specincl"] = func(a []string) string { return showBool(c03AcceptRecord(c03Tup(a))) }
+	impls["tlog.speccons"] = func(a []string) string { return showBool(c03AcceptTree(c03Tup(a))) }
+	impls["tlog.specaccincl"] = func(a []string) string {
+		x := c03Tup(a)
+		return showBool(tlog.CheckRecord(x.p, x.t, x.th, x.n, x.h) == nil)
+	}
+	impls["tlog.specacccons"] = func(a []string) string {
+		x := c03Tup(a)
+		return showBool(tlog.CheckTree(x.p, x.t, x.th, x.n, x.h) == nil)
+	}
 	register(&Prop{ID: "C03", Gen: genC03, Oracle: oracleC03,
 		Rule: "every (t, n) with t <= 64 (thorough: t <= 160 plus sampled t <= 600): ProveRecord / ProveTree over a log of t records, and CheckRecord / CheckTree on the valid tuple and on mutations of every component (each proof hash: bit flip, swap two, reverse, drop first/last/middle, duplicate, extend, replace by the root / leaf; n±1, t±1, t<->n, roots swapped, leaf replaced; sizes 0, negative, n = t, n > t); random proofs of length 0-70 for sizes up to 2^63-1 including 2^62±1; non-trivial = valid tuple or one mutation from valid; distinct by op line"})
 }
@@ -213,6 +230,21 @@ func c03HugeTuple(r *Rand) c03Tuple {
 	return c03Tuple{p: c03RandProof(r, k), t: t, th: c09RandHash(r), n: n, h: c09RandHash(r), what: "huge"}
 }
 
+// c03EmitCheck emits the checker op and, for a third of the cases, the same tuple to the two
+// specification-side acceptors.
+func c03EmitCheck(g *Gen, x c03Tuple, kind string, nt bool) {
+	g.Emit(x.op(kind), nt, kind+"-"+x.what)
+	if g.Chance(30) {
+		if kind == "checkrecord" {
+			g.Emit(x.op("specincl"), nt, "spec-rfc9162-incl")
+			g.Emit(x.op("specaccincl"), nt, "spec-accept-incl")
+		} else {
+			g.Emit(x.op("speccons"), nt, "spec-rfc9162-cons")
+			g.Emit(x.op("specacccons"), nt, "spec-accept-cons")
+		}
+	}
+}
+
 func genC03(g *Gen, n int) {
 	maxT := 64
 	if thorough {
@@ -236,28 +268,34 @@ func genC03(g *Gen, n int) {
 		g.Emit(fmt.Sprintf("tlog.provetree %d %d @1:%d", t+3, t, t), true, "provetree-short-store")
 		for k := 0; k < t; k++ {
 			g.Emit(fmt.Sprintf("tlog.proverecord %d %d %s", t, k, l.tok()), true, "proverecord")
+			if g.Chance(30) {
+				g.Emit(fmt.Sprintf("tlog.specpath %d %s", k, l.tok()), true, "spec-path")
+			}
 			v, err := l.recordTuple(t, k)
 			if err != nil {
 				continue
 			}
-			g.Emit(v.op("checkrecord"), true, "checkrecord-valid")
+			c03EmitCheck(g, v, "checkrecord", true)
 			muts := c03Mutations(g.Rand, v, false)
 			for j := 0; j < perPair && len(muts) > 0; j++ {
 				m := muts[g.Intn(len(muts))]
-				g.Emit(m.op("checkrecord"), true, "checkrecord-"+m.what)
+				c03EmitCheck(g, m, "checkrecord", true)
 			}
 		}
 		for k := 1; k <= t; k++ {
 			g.Emit(fmt.Sprintf("tlog.provetree %d %d %s", t, k, l.tok()), true, "provetree")
+			if g.Chance(30) {
+				g.Emit(fmt.Sprintf("tlog.specproof %d %s", k, l.tok()), true, "spec-proof")
+			}
 			v, err := l.treeTuple(t, k)
 			if err != nil {
 				continue
 			}
-			g.Emit(v.op("checktree"), true, "checktree-valid")
+			c03EmitCheck(g, v, "checktree", true)
 			muts := c03Mutations(g.Rand, v, false)
 			for j := 0; j < perPair && len(muts) > 0; j++ {
 				m := muts[g.Intn(len(muts))]
-				g.Emit(m.op("checktree"), true, "checktree-"+m.what)
+				c03EmitCheck(g, m, "checktree", true)
 			}
 		}
 	}
@@ -267,12 +305,12 @@ func genC03(g *Gen, n int) {
 		for k := 0; k < t; k++ {
 			if v, err := l.recordTuple(t, k); err == nil {
 				for _, m := range c03Mutations(g.Rand, v, true) {
-					g.Emit(m.op("checkrecord"), true, "checkrecord-"+m.what)
+					c03EmitCheck(g, m, "checkrecord", true)
 				}
 			}
 			if v, err := l.treeTuple(t, k+1); err == nil {
 				for _, m := range c03Mutations(g.Rand, v, true) {
-					g.Emit(m.op("checktree"), true, "checktree-"+m.what)
+					c03EmitCheck(g, m, "checktree", true)
 				}
 			}
 		}
@@ -292,19 +330,19 @@ func genC03(g *Gen, n int) {
 			k := g.Intn(t)
 			g.Emit(fmt.Sprintf("tlog.proverecord %d %d %s", t, k, l.tok()), true, "proverecord-big")
 			if v, err := l.recordTuple(t, k); err == nil {
-				g.Emit(v.op("checkrecord"), true, "checkrecord-valid")
+				c03EmitCheck(g, v, "checkrecord", true)
 				for _, m := range c03Mutations(g.Rand, v, false) {
 					if g.Chance(25) {
-						g.Emit(m.op("checkrecord"), true, "checkrecord-"+m.what)
+						c03EmitCheck(g, m, "checkrecord", true)
 					}
 				}
 			}
 			g.Emit(fmt.Sprintf("tlog.provetree %d %d %s", t, k+1, l.tok()), true, "provetree-big")
 			if v, err := l.treeTuple(t, k+1); err == nil {
-				g.Emit(v.op("checktree"), true, "checktree-valid")
+				c03EmitCheck(g, v, "checktree", true)
 				for _, m := range c03Mutations(g.Rand, v, false) {
 					if g.Chance(25) {
-						g.Emit(m.op("checktree"), true, "checktree-"+m.what)
+						c03EmitCheck(g, m, "checktree", true)
 					}
 				}
 			}
@@ -317,8 +355,8 @@ func genC03(g *Gen, n int) {
 	}
 	for i := 0; i < hn; i++ {
 		v := c03HugeTuple(g.Rand)
-		g.Emit(v.op("checkrecord"), false, "checkrecord-huge")
-		g.Emit(v.op("checktree"), false, "checktree-huge")
+		c03EmitCheck(g, v, "checkrecord", false)
+		c03EmitCheck(g, v, "checktree", false)
 	}
 	// provers refuse out-of-range huge arguments without reading
 	for _, t := range c03Huge {
